@@ -184,6 +184,30 @@ def run(tier):
     for p in IDENTIFIER_SOURCES:
         ck.anchor(p in fx.fns or p.endswith("EnumData::keys"), "function " + p)
 
+    # R1b: the text canonicalisers agree on what a canonical index is: parse as u32 AND print back to the same text
+    ck.rule("R1b.canonicaliser-roundtrip", "every canonicaliser that parses text as u32 also compares the printed-back index with the text (leading zeros, '+1', ' 1' are not indices)", floor=4)
+    for p in sorted(canon):
+        f = fx.fns[p]
+        parses = prints = compares = False
+        for g in fx.body_group(f):
+            for bi, t in g.calls():
+                d = t[1].get("d", "")
+                targs = [fx.tys(x) for x in t[1].get("targs", [])]
+                if d.endswith("::parse") and (("u32" in targs) or d.endswith("JsString::parse")):
+                    parses = True
+                if d.endswith("ToString>::to_string") or d.endswith("::to_string"):
+                    if "u32" in targs:
+                        prints = True
+                if d.endswith("PartialEq<&str>>::eq") or d.endswith("::eq") or d.endswith("PartialEq>::eq"):
+                    compares = True
+        if not (parses or prints):
+            continue
+        ok = prints and compares
+        ck.instance("R1b.canonicaliser-roundtrip", p, F.short_span(f.span), ok=ok)
+        if not ok:
+            ck.finding("R1b.canonicaliser-roundtrip", "R1b.canonicaliser-roundtrip/" + p, F.short_span(f.span),
+                       "`%s` accepts any text that parses as u32 as an array index without printing it back: '007' becomes index 7, so `obj['007']` and `obj[7]` collide and sibling canonicalisers disagree" % p)
+
     # ---------------- R2
     ck.rule("R2.json-cycle-refusal", "the JSON exporter's recursion is dominated by the visited-set test and undone on exit", floor=1)
     ex = fx.fns.get("interpreter::builtins::json::js_value_to_json_with_visited")
